@@ -683,6 +683,24 @@ def run_model_sharded(model_bin, cases, wdir, tag, shards=16, impl_flat=None):
     return flat
 
 
+def expand_tokens(toks):
+    """numbers in the harness's compact notation: `v`, `v*c` (v repeated c times), `a..b*c` (each of a..b-1 c times)"""
+    out = []
+    for x in toks:
+        if "*" in x:
+            v, c = x.split("*", 1)
+            c = int(c)
+            if ".." in v:
+                a, b = v.split("..", 1)
+                for s_ in range(int(a), int(b)):
+                    out += [s_] * c
+            else:
+                out += [int(v)] * c
+        else:
+            out.append(int(x))
+    return out
+
+
 def load_corpus(prop):
     d = os.path.join(ROOT, "corpus")
     out = []
@@ -702,7 +720,7 @@ def load_corpus(prop):
                                  else "w" if kind == "wt" else "da" if kind.startswith("darray") else
                                  "rsq" if kind.startswith("rsq") else kind)
                         try:
-                            c.seq = [int(x) for x in t[5:]]
+                            c.seq = expand_tokens(t[5:])
                         except ValueError:
                             c.seq = []
                         c.tags.setdefault("kind", kind)
